@@ -21,22 +21,66 @@ func init() {
 // orderedCalls checks that in fn the first call matching each successive matcher is
 // preceded on all paths (to it) by a call matching the previous one.
 func orderedCalls(c *Ctx, rule string, fn *ssa.Function, names []string, ms []Matcher, skip ...edgeSet) {
+	top := fn
+	orderedCallsDeep(c, rule, fn, names, ms, func(f *ssa.Function) edgeSet {
+		out := edgeSet{}
+		if f == top {
+			for _, s := range skip {
+				for e := range s {
+					out[e] = true
+				}
+			}
+		}
+		return out
+	}, 2)
+}
+
+// orderedCallsDeep: the effects ms[0], ms[1], ... run in that order on every path of fn.  An
+// effect's site is the matching call itself or the call of a same-package helper that
+// (transitively, to the given depth) contains it, so splitting fn into helpers keeps the
+// obligations: two consecutive effects inside one helper are ordered inside that helper.
+func orderedCallsDeep(c *Ctx, rule string, fn *ssa.Function, names []string, ms []Matcher, skipFn func(*ssa.Function) edgeSet, depth int) {
 	if fn == nil {
 		return
 	}
+	sitesOf := func(m Matcher) []ssa.CallInstruction {
+		return effectSites(c, fn, func(ci ssa.CallInstruction) bool { return m(ci.Common()) }, depth)
+	}
+	se := map[[2]*ssa.BasicBlock]bool{}
+	if skipFn != nil {
+		for e := range skipFn(fn) {
+			se[e] = true
+		}
+	}
 	for i := 1; i < len(ms); i++ {
-		prev := Calls(fn, false, ms[i-1])
-		cur := need(c, rule, fn, false, names[i], ms[i], 1)
+		prev := sitesOf(ms[i-1])
+		cur := sitesOf(ms[i])
+		if len(cur) == 0 {
+			c.Fail(rule, key(fn, "has:"+names[i]), fn.Pos(), 1, "expected at least 1 call(s) to %s in %s, found 0", names[i], FuncName(fn))
+			continue
+		}
+		c.Pass(rule, key(fn, "has:"+names[i]), fn.Pos(), len(cur), "%d site(s) of %s", len(cur), names[i])
 		for j, b := range cur {
 			k := key(fn, fmt.Sprintf("%s[%d]<-%s", names[i], j+1, names[i-1]))
-			se := map[[2]*ssa.BasicBlock]bool{}
-			for _, s := range skip {
-				for e := range s {
-					se[e] = true
+			var others []ssa.Instruction
+			inSame := false
+			for _, p := range prev {
+				if p == b {
+					inSame = true
+					continue
+				}
+				others = append(others, p.(ssa.Instruction))
+			}
+			if inSame && depth > 0 {
+				// both effects live in the helper called here: ordered inside it
+				if h := StaticFn(b.Common()); h != nil && h.Blocks != nil {
+					c.Touch(h)
+					orderedCallsDeep(c, rule, h, []string{names[i-1], names[i]}, []Matcher{ms[i-1], ms[i]}, skipFn, depth-1)
+					continue
 				}
 			}
-			reach, n := CutReach(fn, nil, b.(ssa.Instruction), instrs(prev), se)
-			c.Decide(!reach && len(prev) > 0, rule, k, b.Pos(), n, names[i]+" runs after "+names[i-1]+" on every path", "a path reaches "+names[i]+" without "+names[i-1]+" having run")
+			reach, n := CutReach(fn, nil, b.(ssa.Instruction), others, se)
+			c.Decide(!reach && len(others) > 0, rule, k, b.Pos(), n, names[i]+" runs after "+names[i-1]+" on every path", "a path reaches "+names[i]+" without "+names[i-1]+" having run")
 		}
 	}
 }
@@ -49,15 +93,27 @@ func C12(c *Ctx) {
 	const r1 = "K1.close-order"
 	c.Rule(r1, "DB.closeInternal stops the commit workers, then closes the LSM, the value log, the WAL and finally releases the directory lock, and only then marks the DB closed; wal.Manager.Close flushes, fsyncs and closes in that order; stopCommitWorkers closes the queue before waiting for the worker")
 	if fn := c.Fn("", "DB.closeInternal"); fn != nil {
-		orderedCalls(c, r1, fn,
+		orderedCallsDeep(c, r1, fn,
 			[]string{"stopCommitWorkers", "lsm.Close", "vlog.close", "wal.Close", "dirLock.Release"},
 			[]Matcher{Named("NoKV.(*DB).stopCommitWorkers"), Named("lsm.(*LSM).Close"), Named("NoKV.(*valueLog).close"), Named("wal.(*Manager).Close"), Named("utils.(*DirLock).Release")},
-			nilFieldEdges(fn, "NoKV.DB", "dirLock"))
-		// errors of the three closes are collected (used)
+			func(f *ssa.Function) edgeSet { return nilFieldEdges(f, "NoKV.DB", "dirLock") }, 2)
+		// errors of the three closes are collected (used), wherever the close is performed
+		holders := []*ssa.Function{fn}
+		AllInstrs(fn, false, func(in ssa.Instruction) {
+			if ci, ok := in.(ssa.CallInstruction); ok {
+				if h := StaticFn(ci.Common()); h != nil && h.Blocks != nil && h != fn && FuncPkgPath(h) == FuncPkgPath(fn) {
+					holders = append(holders, h)
+				}
+			}
+		})
 		for _, m := range []string{"lsm.(*LSM).Close", "NoKV.(*valueLog).close", "wal.(*Manager).Close", "utils.(*DirLock).Release"} {
-			for i, ci := range Calls(fn, false, Named(m)) {
-				ev := ErrResult(ci)
-				c.Decide(ev != nil && ev.Referrers() != nil && len(*ev.Referrers()) > 0, r1, key(fn, fmt.Sprintf("%s[%d]#error-used", m, i+1)), ci.Pos(), 1, "close error is collected", "the error of "+m+" is dropped by closeInternal")
+			n := 0
+			for _, g := range holders {
+				for _, ci := range Calls(g, false, Named(m)) {
+					n++
+					ev := ErrResult(ci)
+					c.Decide(ev != nil && ev.Referrers() != nil && len(*ev.Referrers()) > 0, r1, key(fn, fmt.Sprintf("%s[%d]#error-used", m, n)), ci.Pos(), 1, "close error is collected", "the error of "+m+" is dropped by closeInternal")
+				}
 			}
 		}
 	}
@@ -134,17 +190,26 @@ func C12(c *Ctx) {
 				}
 			}
 			c.Decide(good, r2, key(fn, fmt.Sprintf("nextTxnTs.Store[%d]#arg=committed+1", i+1)), st.Pos(), 1, "next timestamp = recovered max + 1", "nextTxnTs is not stored as committed+1")
-			// guard: only when committed >= current (never lowers)
-			gd := false
-			for _, b := range fn.Blocks {
-				if ifi := ifOf(b); ifi != nil {
-					if bo, ok := ifi.Cond.(*ssa.BinOp); ok && bo.Op == token.GEQ {
-						if _, isP := bo.X.(*ssa.Parameter); isP && EdgeDominates(b, b.Succs[0], st.Block()) {
-							gd = true
-						}
+			// guard: only when committed >= current (never lowers); decided by order-sign
+			// evaluation over (recovered vs current counter)
+			role := func(v ssa.Value) string {
+				v = Unwrap(v)
+				if len(fn.Params) > 1 && v == fn.Params[1] {
+					return "rec"
+				}
+				if call, ok := v.(*ssa.Call); ok && Named("(*sync/atomic.Uint64).Load")(call.Common()) {
+					if _, f, ok := FieldOf(call.Call.Args[0]); ok && f == "nextTxnTs" {
+						return "cur"
 					}
 				}
+				return ""
 			}
+			reach := func(sg int) bool {
+				signs := map[string]int{}
+				SetSign(signs, "rec", "cur", sg)
+				return (&SignEnv{Role: role, Signs: signs, Depth: 1}).Reaches(fn, st.(ssa.Instruction))
+			}
+			gd := !reach(-1) && reach(0) && reach(1)
 			c.Decide(gd, r2, key(fn, fmt.Sprintf("nextTxnTs.Store[%d]#never-lowers", i+1)), st.Pos(), 1, "store is guarded by committed >= current", "nextTxnTs store is not guarded against lowering the counter")
 		}
 	}
@@ -164,7 +229,9 @@ func C12(c *Ctx) {
 			c.Decide(reads[f], r3, key(fn, "reads:"+f), fn.Pos(), len(reads), "container visited", "levelManager.maxVersion does not visit "+f+" (tables held there are ignored when seeding the oracle)")
 		}
 		mv := Calls(fn, false, Named("lsm.(*table).MaxVersionVal"))
-		c.Decide(len(mv) >= 2, r3, key(fn, "MaxVersionVal-per-container"), fn.Pos(), len(mv)+1, "max version folded over both containers", fmt.Sprintf("expected MaxVersionVal folded over tables and ingest tables, found %d site(s)", len(mv)))
+		// (both containers are read – above – and folded by at least one MaxVersionVal loop; one
+		// loop over an array of the two containers is the same fold)
+		c.Decide(len(mv) >= 1, r3, key(fn, "MaxVersionVal-per-container"), fn.Pos(), len(mv)+1, "max version folded over the containers", "levelManager.maxVersion no longer folds table.MaxVersionVal over the tables it visits")
 	}
 	if fn := c.Fn("lsm", "LSM.openMemTable"); fn != nil {
 		st := fieldStoresIn(fn, true, "lsm.memTable", "maxVersion")
